@@ -27,6 +27,16 @@ CHECKS = {
               "(assign_raw_pointer / UNSAFE_accept_pointer accept exactly the addresses inside that sandbox and keep the address). Tied to the code by the regenerated table and by ~1000 entry-point ops "
               "(4 flavours x 2 live sandboxes x null/heap/stack/absolute/own/other region incl. both ends). Two genuine defects found here were repaired (db76c35, 7efba4e)."),
         note=NOTE + "Trusted: g++ 12 front end as the judge; shapes outside the enumerated list are not covered."),
+    "C08": dict(
+        engine="struct", design_ref="DESIGN.md §6 C08",
+        technique="Lean 4 theorems: layout well-formedness by induction over arbitrary field lists; round trip / no-spurious-abort / abort-when-unrepresentable / pointwise by mutual structural induction over nested values (reusing C06 and C04) + differential execution of generated struct families on three foreign ABIs + independent oracle",
+        text=("Proof: C08_field_placed, C08_fields_disjoint, C08_sizeof (for EVERY field list and every ABI with widths in {1,2,4,8}: fields aligned to their guest alignment, ascending, pairwise disjoint, inside "
+              "sizeof; sizeof a multiple of the struct alignment which every field alignment divides), C08_roundtrip (copy-in then copy-out returns every field: integers by C06, pointers by C04, arrays element-wise, "
+              "nested structs recursively, any nesting depth), C08_total + C08_done_fits (the copy aborts exactly when some integer leaf does not fit its guest type), C08_pointwise / C08_pointwise_out (image field i is the "
+              "conversion of source field i and of nothing else; same field count). Tied to the code by generated struct families (all leaf kinds, arrays incl. pointer and function-pointer arrays, nesting <= 2, shuffled orders) "
+              "compiled against the real headers: leaf offsets through tainted pointers vs an independently declared fixed-width struct vs the model; raw copy-in image, copy-out, by-value argument seen by the guest, "
+              "by-value result, copy-out of a guest-written image, loads through a const view; ABIs A/B/C."),
+        note=NOTE + "Not covered: arrays of structs and const-qualified fields (rejected by rlbox's struct support at compile time), bit-fields, unions; float/double fields carry integral values (never converted)."),
     "C06": dict(
         engine="conv", design_ref="DESIGN.md §6 C06",
         technique="Lean 4 theorem over all integer type pairs and values (case split + omega) + differential execution vs model driver + 128-bit oracle",
@@ -189,7 +199,7 @@ def main():
             "source_commits": [],
             "add_only": True,
         },
-        "engines": [{"name": e, "path": ("gen/typing_table.py + lean/Driver/TypingEng.lean" if e == "typing" else f"harness/h_{e}.cpp + lean/Driver"), "serves_properties": sorted(ps),
+        "engines": [{"name": e, "path": ("gen/typing_table.py + lean/Driver/TypingEng.lean" if e == "typing" else "gen/structs.py + harness/structs_common.hpp + lean/Driver/StructEng.lean" if e == "struct" else f"harness/h_{e}.cpp + lean/Driver"), "serves_properties": sorted(ps),
                      "kind_free_text": "line-protocol differential engine (C++ harness on real headers vs Lean model driver)"} for e, ps in sorted(engines.items())],
         "checks": checks,
         "not_applicable": na,
